@@ -71,27 +71,7 @@ def need_end(o_end, stride, lead, k):
     return (o_end - 1) * stride - lead + k
 
 
-contract(
-    "ethosu.vela.high_level_command_stream:Box.transform_with_strides_and_skirt", props=["C10"],
-    variants={
-        "no_split,upscale=1,%s" % name: dict(
-            self=BOX, strides=STRIDES, skirt=SKIRT, ifm_shape=SHAPE4, npu_block_type=TEnum(NpuBlockType, members=members),
-            concat_offsets=TTuple(TInt(lo=0, hi=0), TInt(lo=0, hi=65535), TInt(lo=0, hi=65535), TInt(lo=0, hi=65535)),
-            k_dilated_height=TInt(lo=1, hi=256), split_offset=TConst(None), split_shape=TConst(None), upscaling_factor=TConst(1),
-            op_type=TConst(None), k_w=TInt(lo=1, hi=256))   # k_w: ghost (dilated kernel width; the function is not given it)
-        for name, members in (("dot_product_ops", BLOCK_TYPES_DOT), ("equal_depth_ops", BLOCK_TYPES_EQ))
-    },
-    requires=[
-        # the OFM box (after removing the concat offset) is non-empty and non-negative
-        "all(concat_offsets[i] <= self.start_coord[i] < self.end_coord[i] for i in range(1, 4))",
-        # skirt as produced by calc_padding_and_skirt (proved there): the trailing part covers the last window
-        "skirt[2] >= k_dilated_height - strides[1] - skirt[0]", "skirt[3] >= k_w - strides[2] - skirt[1]",
-        # the first row / column the box needs lies inside the IFM (a stripe of the operator's own OFM)
-        "need_start(self.start_coord[1] - concat_offsets[1], strides[1], skirt[0]) < ifm_shape.height",
-        "need_start(self.start_coord[2] - concat_offsets[2], strides[2], skirt[1]) < ifm_shape.width",
-        "self.start_coord[3] - concat_offsets[3] < ifm_shape.depth",
-    ],
-    ensures=[
+UPSCALE1_ENSURES = [
         # rows: start and both paddings are exactly the receptive field clipped to the IFM
         "result[0].start_coord[1] == max(need_start(self.start_coord[1] - concat_offsets[1], strides[1], skirt[0]), 0)",
         "result[1] == max(0, -need_start(self.start_coord[1] - concat_offsets[1], strides[1], skirt[0]))",
@@ -117,7 +97,55 @@ contract(
         # batch untouched; the result is a well-formed box (the constructor's asserts are discharged as no_exception obligations)
         "result[0].start_coord[0] == 0 and result[0].end_coord[0] == 1",
         "all(result[0].start_coord[i] <= result[0].end_coord[i] for i in range(4))",
+]
+
+contract(
+    "ethosu.vela.high_level_command_stream:Box.transform_with_strides_and_skirt", props=["C10"],
+    variants={
+        "no_split,upscale=1,%s" % name: dict(
+            self=BOX, strides=STRIDES, skirt=SKIRT, ifm_shape=SHAPE4, npu_block_type=TEnum(NpuBlockType, members=members),
+            concat_offsets=TTuple(TInt(lo=0, hi=0), TInt(lo=0, hi=65535), TInt(lo=0, hi=65535), TInt(lo=0, hi=65535)),
+            k_dilated_height=TInt(lo=1, hi=256), split_offset=TConst(None), split_shape=TConst(None), upscaling_factor=TConst(1),
+            op_type=TConst(None), k_w=TInt(lo=1, hi=256))   # k_w: ghost (dilated kernel width; the function is not given it)
+        for name, members in (("dot_product_ops", BLOCK_TYPES_DOT), ("equal_depth_ops", BLOCK_TYPES_EQ))
+    } | {
+        # 2x IFM upscaling (nearest-neighbour resize, transpose convolution): stride 1 in the upscaled space
+        "no_split,upscale=2": dict(
+            self=BOX, strides=TTuple(TInt(lo=1, hi=1), TInt(lo=1, hi=1), TInt(lo=1, hi=1), TInt(lo=1, hi=1)), skirt=SKIRT, ifm_shape=SHAPE4,
+            npu_block_type=TEnum(NpuBlockType, members=BLOCK_TYPES_EQ),
+            concat_offsets=TTuple(TInt(lo=0, hi=0), TInt(lo=0, hi=65535), TInt(lo=0, hi=65535), TInt(lo=0, hi=65535)),
+            k_dilated_height=TInt(lo=1, hi=256), split_offset=TConst(None), split_shape=TConst(None), upscaling_factor=TConst(2),
+            op_type=TConst(None), k_w=TInt(lo=1, hi=256)),
+    },
+    requires=[
+        # the OFM box (after removing the concat offset) is non-empty and non-negative
+        "all(concat_offsets[i] <= self.start_coord[i] < self.end_coord[i] for i in range(1, 4))",
+        # skirt as produced by calc_padding_and_skirt (proved there): the trailing part covers the last window
+        "skirt[2] >= k_dilated_height - strides[1] - skirt[0]", "skirt[3] >= k_w - strides[2] - skirt[1]",
+        # the first column the box needs lies inside the IFM (a stripe of the operator's own OFM)
+        "need_start(self.start_coord[2] - concat_offsets[2], strides[2], skirt[1]) < ifm_shape.width",
+        "self.start_coord[3] - concat_offsets[3] < ifm_shape.depth",
     ],
+    variant_requires={
+        "no_split,upscale=1,dot_product_ops": ["need_start(self.start_coord[1] - concat_offsets[1], strides[1], skirt[0]) < ifm_shape.height"],
+        "no_split,upscale=1,equal_depth_ops": ["need_start(self.start_coord[1] - concat_offsets[1], strides[1], skirt[0]) < ifm_shape.height"],
+        "no_split,upscale=2": [
+        # rows of the UPSCALED IFM: the first needed row lies inside it, and the stripe is not the special VALID transpose-convolution case
+        "need_start(self.start_coord[1] - concat_offsets[1], 1, skirt[0]) < 2 * ifm_shape.height",
+        "self.end_coord[1] - concat_offsets[1] <= 2 * ifm_shape.height",
+        # stripes of an upscaled operator end on an even output row unless they reach the end of the upscaled IFM (the scheduler forces even
+        # stripe heights in cascades that contain an upscaling operator)
+        "(self.end_coord[1] - concat_offsets[1]) % 2 == 0 or (self.end_coord[1] - concat_offsets[1]) + skirt[2] >= 2 * ifm_shape.height",
+    ]},
+    variant_ensures={
+        "no_split,upscale=1,dot_product_ops": UPSCALE1_ENSURES, "no_split,upscale=1,equal_depth_ops": UPSCALE1_ENSURES,
+        "no_split,upscale=2": [
+            # the returned rows, mapped back to the upscaled IFM (row r covers upscaled rows 2r, 2r+1), contain the receptive field clipped to it
+            "2 * result[0].end_coord[1] >= min(2 * ifm_shape.height, need_end(self.end_coord[1] - concat_offsets[1], 1, skirt[0], k_dilated_height))",
+            "result[0].end_coord[1] <= ifm_shape.height and 0 <= result[0].start_coord[1] <= result[0].end_coord[1]",
+            # (the start row / top padding of the upscaled case - an odd top skirt row is accounted as padding - is not specified here)
+        ],
+    },
 )
 
 
